@@ -167,7 +167,8 @@ def handle (st : State) (fields : List String) : IO (State × String) := do
         let vj ← Lean.Json.parse (unhexD valHex)
         let v ← JsonM.readVal vj
         let j ← JsonM.toJ s v
-        pure s!"canon={toHex j.canon}\tdump={JsonM.dumpVal s v}\tR:conforms={JsonM.conforms s j}"
+        let kf := if JsonM.hasEmbeddedAddl s then "KF-C06-embeddedAddl" else ""
+        pure s!"canon={toHex j.canon}\tdump={JsonM.dumpVal s v}\tR:conforms={JsonM.conforms s j}\tK:{kf}"
       match res with
       | .ok r => pure (st, s!"{id}\t{r}")
       | .error e => pure (st, s!"{id}\tunmodelled:{e}")
@@ -181,12 +182,13 @@ def handle (st : State) (fields : List String) : IO (State × String) := do
         let dj ← Lean.Json.parse (unhexD docHex)
         let j ← JsonM.readJ dj
         let ok := JsonM.conforms s j
+        if JsonM.hasEmbeddedAddl s then throw "K:KF-C06-embeddedAddl" else
         match JsonM.decode st.jleaf s j with
         | .error (.unmodelled m) => throw m
         | .error e => pure s!"dec={e.render}\tR:conforms={ok} expect={toHex (JsonM.prune st.jleaf s j).canon}"
         | .ok v =>
           match JsonM.toJ s v with
-          | .ok j2 => pure s!"dec=ok dump={JsonM.dumpVal s v} reenc={toHex j2.canon}\tR:conforms={ok} expect={toHex (JsonM.prune st.jleaf s j).canon}"
+          | .ok j2 => pure s!"dec=ok dump={JsonM.dumpVal s v} reenc={toHex j2.canon}\tR:conforms={ok} expect={toHex (JsonM.prune st.jleaf s j).canon} reencConforms={JsonM.conforms s j2}"
           | .error e => throw s!"re-encode: {e}"
       match res with
       | .ok r => pure (st, s!"{id}\t{r}")
